@@ -47,6 +47,9 @@ def charge_map(prog, ev=None):
         return cm, f2, (loop if [n for n in g.body if n is loop] and len(g.body) <= 2 else g)
     except Undecided:
         pass
+    if len(guards) != 1:
+        # the loop sits under further conditions that the block evaluation could not follow: evaluating the loop alone would ignore the other branch
+        raise Undecided("the charge-pattern loop runs only under %d nested conditions that lcsa cannot evaluate" % len(guards), f.loc(loop))
     env = {"self": ObjV("Sequence"), "chargePattern": ListAcc([]), "seq": SeqV("seq")}
     fr = _Frame(f, 0)
     res = ev.exec_for(loop, Path([], "live", None, env), fr)
@@ -68,6 +71,9 @@ def charge_map(prog, ev=None):
     return dict(table), f, loop
 
 
+ANOMALIES = []          # (construct loc, path condition text, value text): derive-branch paths that do not build the per-residue map
+
+
 def _charge_map_direct(prog, ev):
     f = prog.fn(SEQ, "Sequence.__init__")
     guards = [s for s in f.body() if isinstance(s, ast.If) and "chargePattern" in unparse(s.test)
@@ -76,19 +82,28 @@ def _charge_map_direct(prog, ev):
         raise Undecided("expected exactly one chargePattern-building loop in Sequence.__init__, found 0 (and %d guarded direct stores)" % len(guards), f.loc())
     g = guards[0]
     env = {"self": ObjV("Sequence"), "chargePattern": ListAcc([]), "seq": SeqV("seq")}
+    from .alg import Rat
+    for p in f.params()[1:]:
+        env.setdefault(p, Rat.atom("P:" + p))          # the other constructor arguments: unconstrained
     fr = _Frame(f, 0)
     res = ev.exec_block(g.body, [Path([], "live", None, env)], fr)
     live = [p for p in res if p.kind == "live"]
-    if len(live) != 1:
-        # a guard on the empty sequence (`if self.len > 0:`) splits the branch; the map is what is built for N >= 1
-        from .dt import feasible_with
-        from .lin import Lin
-        live = [p for p in live if feasible_with(p.conds, [Lin({"N": -1}, 1, "<=")], {"N"}, int_atoms={"N"}) is not None]
-    if len(live) != 1:
-        raise Undecided("the branch that derives the charge pattern does not complete on exactly one path", f.loc(g))
-    v = live[0].env.get("@self.chargePattern")
-    if not (isinstance(v, SeqV) and v.kind == "map"):
-        raise Undecided("the derived charge pattern is not a per-residue map of the sequence (%r)" % (v,), f.loc(g))
+    from .dt import feasible_with
+    from .lin import Lin
+    from .sym import fmt_conds
+    live = [p for p in live if feasible_with(p.conds, [Lin({"N": -1}, 1, "<=")], {"N"}, int_atoms={"N"}) is not None]
+    good = [p for p in live if isinstance(p.env.get("@self.chargePattern"), SeqV) and p.env.get("@self.chargePattern").kind == "map"]
+    if not good:
+        raise Undecided("the derived charge pattern is not a per-residue map of the sequence (%r)" % (live[0].env.get("@self.chargePattern") if live else None,), f.loc(g))
+    tables = {repr(sorted(ev.eltables[p.env["@self.chargePattern"].elkey].items())) for p in good}
+    if len(tables) != 1:
+        raise Undecided("the branch that derives the charge pattern builds different maps on different paths", f.loc(g))
+    del ANOMALIES[:]
+    for p in live:
+        if p not in good:
+            # a path (for N >= 1 and some value of the other arguments) on which the stored pattern is NOT the per-residue map
+            ANOMALIES.append((f.loc(g), fmt_conds(p.conds), repr(p.env.get("@self.chargePattern"))[:80]))
+    v = good[0].env.get("@self.chargePattern")
     return dict(ev.eltables[v.elkey]), f, g
 
 
